@@ -9,6 +9,7 @@ import CnvVerif.Driver.Fix
 import CnvVerif.Driver.Access
 import CnvVerif.Driver.Genes
 import CnvVerif.Driver.Formats
+import CnvVerif.Driver.FormatsExt
 import CnvVerif.Driver.Export
 import CnvVerif.Driver.ExportExt
 import CnvVerif.Driver.Reference
@@ -24,7 +25,7 @@ import CnvVerif.Driver.StatsGlue
 open Lean CnvVerif.Drv
 
 def handlers : List (String → Json → Option Json → R (Option Json)) :=
-  [handleInterval, handleCall, handleCallCmd, handleSegFilter, handleTile, handleCenter, handleFix, handleAccess, Genes.handleGenes, handleFormats, handleExport, handleExportExt, Reference.handleReference, handleCoverage, handleCoverageExt, handleEffects, handleBins, handleVcf, handleDescriptives, Haar.handleHaar, handleStats, handleStatsGlue]
+  [handleInterval, handleCall, handleCallCmd, handleSegFilter, handleTile, handleCenter, handleFix, handleAccess, Genes.handleGenes, handleFormats, handleFormatsExt, handleExport, handleExportExt, Reference.handleReference, handleCoverage, handleCoverageExt, handleEffects, handleBins, handleVcf, handleDescriptives, Haar.handleHaar, handleStats, handleStatsGlue]
 
 def dispatch (op : String) (inp : Json) (impl : Option Json) : R Json := do
   for h in handlers do
